@@ -58,6 +58,7 @@ class SingleShooting(SamplingMethod):
         self.add_variables_V_control_finalize(stage, opti)
 
     def add_constraints(self,stage,opti):
+        self.reject_refined_control_constraints(stage)
         if stage._constraints["integrator_roots"]:
             raise Exception("Constraints with grid='integrator_roots' are only supported by DirectCollocation.")
         self.add_constraints_before(stage, opti)
